@@ -913,7 +913,15 @@ impl Handler<ConfigAsyncCmd> for ConfigActor {
             Ok(ConfigResult::NULL)
         }
         .into_actor(self)
-        .map(|r, _act, _ctx| r);
+        .map(move |r: anyhow::Result<ConfigResult>, act, _ctx| {
+            if r.is_err() && history_info.is_some() {
+                // The write that did not get through may be the one that announces this node's id
+                // reservation (history_table_id) to the other nodes and to the log. Ids of a
+                // reservation nobody else knows about must not be used: start a new one.
+                act.sequence.discard_cache();
+            }
+            r
+        });
         Box::pin(fut)
     }
 }
